@@ -315,6 +315,9 @@ func cmdDump(repo, key string) {
 		for _, u := range g.unmod {
 			fmt.Fprintln(os.Stderr, "UNMODELLED", g.fnKey(), u)
 		}
+		for _, u := range g.uncontracted {
+			fmt.Fprintln(os.Stderr, "UNCONTRACTED-CALL", g.fnKey(), u)
+		}
 	}
 }
 
